@@ -25,6 +25,8 @@ def dispatch (line : String) : String :=
     | "redir" => cmdRedir m
     | "utf16" => cmdUtf16 m
     | "matchauth" => cmdMatchAuth m
+    | "receive" => cmdReceive m
+    | "datapkt" => cmdDataPkt m
     | "checkhost" => cmdCheckHost m
     | "installed" => cmdInstalled m
     | "clientaddr" => cmdClientAddr m
